@@ -536,6 +536,14 @@ CORNER_EXPRS += [f"{callee}({pre}{star}{c})"
                  for c in sorted(set(STAR_CONSTS + DSTAR_CONSTS))
                  for pre in pres]
 
+# keyword arguments named like Python keywords (they are passed through a ** dict in the
+# generated code) combined with every other argument kind
+CORNER_EXPRS += [f"{callee}({', '.join(args)})"
+                 for callee in ("f", "x.m", "x|default", "x is divisibleby")
+                 for kwname in ("class", "if", "lambda", "None", "async")
+                 for args in (["*a", f"{kwname}=1"], ["1", "*a", f"{kwname}=2", "**b"], [f"{kwname}=1", "**b"],
+                              ["b=1", f"{kwname}=2"], ["*a", "b=1", f"{kwname}=2"], ["1", f"{kwname}=2", "*a"])]
+
 CORNER_TAGS = [
     "macro m(a, a)", "macro m(a, ª)", "macro m(__debug__)", "macro m(a=1, b)", "macro m(caller)",
     "macro m(caller=1, x)", "macro m(varargs)", "macro m(kwargs, varargs, caller)", "macro m(self)",
